@@ -431,7 +431,15 @@ func main() {
 		j, _ := json.Marshal(v)
 		os.WriteFile(vf, j, 0644)
 		final := v
-		mr, out, err := runJob(wire.Config{Property: id, Tier: tier, Mode: "minimize", TapeFile: vf}, "minimize")
+		var mr *wire.ShardResult
+		var out string
+		var err error
+		if v.Kind == "hang" && v.Site == "case watchdog" {
+			// every candidate that still hangs would cost the full per-case limit and take the minimiser down with it
+			mr, err = &wire.ShardResult{}, nil
+		} else {
+			mr, out, err = runJob(wire.Config{Property: id, Tier: tier, Mode: "minimize", TapeFile: vf}, "minimize")
+		}
 		if err != nil {
 			fmt.Fprintf(os.Stderr, "driver: minimiser failed for %s: %v\n%s\n", fp, err, tail(out, 2000))
 		} else if mr.Minimised != nil {
